@@ -1,0 +1,33 @@
+package process
+
+// Constants shared by the verification hooks (simhook_on.go / simhook_off.go).
+
+type SimOpKind int
+
+const (
+	SimSend         SimOpKind = iota // blocking send on data
+	SimRecv                          // blocking receive on data (select with ctx.Done)
+	SimRecvRaw                       // blocking receive on data (no ctx)
+	SimSelectSendNP                  // select { ctx.Done, <-ctlIn, data <- m }
+	SimSelectRecvNP                  // select { ctx.Done, <-ctlIn, <-data }
+	SimPollNP                        // select { <-ctlIn, default }
+	SimSelectFwdNP                   // select { <-ctlIn, ctlOut <- cm }
+)
+
+type SimOpResult int
+
+const (
+	SimDoneData      SimOpResult = iota // data operation completed
+	SimDoneCtl                          // received a control message
+	SimDoneDefault                      // poll found nothing
+	SimDoneCancelled                    // ctx.Done
+	SimDoneCtlSent
+)
+
+type SimEventKind int
+
+const (
+	SimRule SimEventKind = iota
+	SimTerminated
+	SimPrint
+)
